@@ -688,7 +688,7 @@ func parseDuration(s string) (time.Duration, error) {
 		}
 		var i []int
 		for _, n := range t {
-			j, err := strconv.ParseInt(n, 10, 16)
+			j, err := strconv.ParseInt(n, 10, 32)
 			if err != nil {
 				return time.Duration(0), errors.New("invalid time duration value")
 			}
